@@ -1,6 +1,6 @@
 (* Properties/C13.v — Retry delays stay within their configured envelope.
    [get_delay] mirrors retryexecutor.go getDelay with float32/float64 arithmetic computed exactly. *)
-From FS Require Import Model.Delay Proofs.DelayProofs Corr.C13.
+From FS Require Import Model.Delay Proofs.DelayProofs Proofs.FloatProofs Corr.C13.
 
 Theorem C13_delay_nonneg : forall c last retries elapsed computed d1 d2 d3,
   0 <= fst (get_delay c last retries elapsed computed d1 d2 d3).
@@ -44,9 +44,49 @@ Theorem C13_jitter_does_not_accumulate : forall c last retries elapsed computed 
 Proof. exact jitter_does_not_accumulate. Qed.
 Print Assumptions C13_jitter_does_not_accumulate.
 
-(* Partial: "backoff equals min(delay*factor^k, maxDelay)" and "never decreases" hold only up to the float32
-   rounding of Duration(float32(lastDelay) * delayFactor) (e.g. delay 16777217ns with factor 1 gives 16777216ns);
-   the analytic rounding bounds and the jitter envelopes |jittered - base| <= jitter, <= jitterFactor*base + base*2^-21 + 2
-   are not proved here: they are evaluated by the checker on every observed delay of every run (a test, not a theorem).
+(* ---- float arithmetic: IEEE-754 round-to-nearest-even never crosses a representable value ---- *)
+
+(* |x| <= B, B with at most p significant bits (normalised mantissa mB, exponent -sB)  ->  |rnd x| <= B *)
+Theorem C13_rounding_stays_within_representable_bound : forall p x mB sB,
+  2 <= p -> wf x -> 2 ^ (p - 1) <= mB < 2 ^ p ->
+  fle x (bval mB sB) -> fle (fneg (bval mB sB)) x ->
+  fle (rnd p x) (bval mB sB) /\ fle (fneg (bval mB sB)) (rnd p x).
+Proof. exact rnd_abs_le. Qed.
+Print Assumptions C13_rounding_stays_within_representable_bound.
+
+(* a jitter duration shifts the delay by at most that duration: util.RandomDelay in float64, every delay, every jitter
+   below 2^53 ns (104 days), every draw in [0, 1) *)
+Theorem C13_jitter_duration_envelope : forall delay jitter random,
+  0 < jitter < 2 ^ 53 -> wf random -> 0 <= fst random < snd random ->
+  delay - jitter <= random_delay delay jitter random <= delay + jitter.
+Proof. exact jitter_envelope. Qed.
+Print Assumptions C13_jitter_duration_envelope.
+
+(* a random delay lies within [delayMin, delayMax]: util.RandomDelayInRange in float64, bounds below 2^53 ns, every draw *)
+Theorem C13_random_range_envelope : forall dmin dmax random,
+  0 < dmin -> dmin <= dmax -> dmax < 2 ^ 53 -> wf random -> 0 <= fst random < snd random ->
+  dmin <= random_delay_in_range dmin dmax random <= dmax.
+Proof. exact random_range_envelope. Qed.
+Print Assumptions C13_random_range_envelope.
+
+(* backoff does not decrease: one step Duration(float32(last) * factor) is at least [last] whenever [last] is exactly
+   representable in float32 (at most 24 significant bits) and factor >= 1 *)
+Theorem C13_backoff_step_not_below : forall mB sB last factor,
+  2 ^ 23 <= mB < 2 ^ 24 -> wf factor -> snd factor <= fst factor ->
+  fle (last, 1) (bval mB sB) -> fle (bval mB sB) (last, 1) ->
+  last <= to_int (fmul 24 (of_int 24 last) factor).
+Proof. exact backoff_step_not_below. Qed.
+Print Assumptions C13_backoff_step_not_below.
+
+(* premises are satisfiable: 100 ms = 390625 * 2^8 ns has 19 significant bits *)
+Example C13_100ms_is_representable :
+  let mB := 390625 * 2 ^ 5 in let sB := -3 in
+  2 ^ 23 <= mB < 2 ^ 24 /\ fle (100000000, 1) (bval mB sB) /\ fle (bval mB sB) (100000000, 1).
+Proof. vm_compute. repeat split; discriminate. Qed.
+
+(* Partial: the jitter-FACTOR envelope |jittered - base| <= jitterFactor*base (+ float32 rounding of three operations) and
+   "backoff never decreases" for delays that are NOT exactly representable in float32 (e.g. 16777217 ns with factor 1
+   gives 16777216 ns) hold only up to rounding; their analytic slack is not proved: it is evaluated by the checker on every
+   observed delay of every run (a test, not a theorem).
    "The next attempt never starts before the scheduled delay has elapsed" is Model/Exec.v's retry loop
    (wait d between RetryScheduled and the next attempt) and is compared instant by instant (C02, C16). *)
